@@ -142,8 +142,13 @@ def run(ctx):
         "statically typed ones: checked for every sequence of <= 3 operations + terminal "
         "(SpanGuard_typed.cfg: erased, concrete types and new_span! guard against one prediction); "
         "longer sequences run on the erased guard only",
-        "macro forms are a fixed set of fixtures: #[span]/#[info_span] x {plain, setup:, "
-        "ok_lvl+err_lvl, +err: mapper, guard:} x {sync fn, async fn} with exits return / early "
+        "the level of the completed span is a function of (exit path, lvl, ok_lvl, err_lvl, "
+        "panic_lvl), each absent / present: default completions dflt/dfltl/dfltp/dfltL and result "
+        "completions ok/okD/err/errD/errM/errMD, through with_lvl/with_panic_lvl, the attribute "
+        "and new_span!; concrete levels are info / debug / warn (one value per parameter)",
+        "macro forms are a fixed set of fixtures: {#[span], #[info_span]} x {panic_lvl absent, "
+        "present} x {plain, setup:, ok_lvl+err_lvl, ok_lvl, err_lvl, +err: mapper, err: mapper "
+        "alone, guard:} x {sync fn, async fn} with exits return / early "
         "return / ? / panic, and new_span!/new_info_span! with manual guard handling in "
         "Frame::call and Frame::in_future; the attribute on blocks / async blocks needs unstable "
         "features (E0658 stmt_expr_attributes / proc_macro_hygiene on rustc 1.95) and is not run",
